@@ -4,6 +4,7 @@
    Statements only; proofs in Proofs/Sectorstyled.v.
    `se_styled_pixels` / `ar_styled_pixels` are the pixel sequences handed to `draw_iter` by draw_styled. *)
 From EG Require Import Base.Prelude Model.Geometry Model.Style Model.Sectormodel Proofs.Geometry Proofs.Sectorstyled.
+From Coq Require Import Sorting.Sorted.
 
 Theorem C02_sector_drawn_in_bbox : forall s st bev p c,
   0 <= stroke_width st -> rect_ok (se_styled_bbox s st) ->
@@ -26,6 +27,18 @@ Proof. exact sector_transparent. Qed.
 
 Theorem C02_arc_transparent : forall a st, is_transparent st = true -> ar_styled_pixels a st = [].
 Proof. exact arc_transparent. Qed.
+
+(* the pixel sequences handed to draw_iter are strictly increasing in (y, x): no pixel is written twice, so the
+   image does not depend on the order in which a target applies them *)
+Theorem C02_sector_pixels_row_major_once : forall s st bev,
+  0 <= stroke_width st -> rect_ok (se_styled_bbox s st) ->
+  StronglySorted lt_yx (map fst (se_styled_pixels s st bev)).
+Proof. exact sector_styled_sorted. Qed.
+
+Theorem C02_arc_pixels_row_major_once : forall a st,
+  0 <= stroke_width st -> rect_ok (ar_styled_bbox a st) ->
+  StronglySorted lt_yx (map fst (ar_styled_pixels a st)).
+Proof. exact arc_styled_sorted. Qed.
 
 (* non-vacuity: the `tiny_sector` of sector/styled.rs draws 20 stroke pixels, all inside its box *)
 Example C02_sector_example :
